@@ -421,7 +421,7 @@ def work_stack(task):
               ('pop_hex', 'hex.pop_hex h'), ('pop_byte', 'hex.pop_byte by'), ('pop3', 'hex.pop 3, v4'), ('pop4', 'hex.pop 4, v4'),
               ('sp_inc', 'hex.sp_inc'), ('sp_dec', 'hex.sp_dec'), ('get_sp', 'stl.get_sp q')]
     specs = [BlockSpec(n, c, ['ft'], None, ()) for n, c in blocks]
-    DEPTHCAP = 12
+    DEPTHCAP = 6  # the declared capacity: the deepest explored sequences fill the stack exactly
     h = Harness(w, 'hex', 1, [('q', w // 4), ('h', 1), ('by', 2), ('v4', 4)], specs, scratch(), stack=DEPTHCAP, tag=f'c08-stack-{w}-{first}')
     sieve = Sieve(PROP, MATCHERS)
     stats = {'transitions': 0, 'states': 0, 'blocks': len(blocks)}
@@ -512,7 +512,7 @@ def work_stack(task):
                     sp = read_sp(r['snap'])
                     if sp != stack0 + len(stack) * dw:
                         problems.append(('stack pointer', hex(stack0 + len(stack) * dw), hex(sp)))
-                    for k in range(1, 8):
+                    for k in range(1, DEPTHCAP + 1):
                         if cell(r['snap'], k) != memcells.get(k, 0):
                             problems.append((f'stack cell {k}', hex(memcells.get(k, 0)), hex(cell(r['snap'], k))))
                     fd = h.frame_diffs(op, r['snap'], r['vals'], extra_allowed=shared | stack_words)
